@@ -42,6 +42,7 @@ type Reporter struct {
 	rule        string
 	exhaustive  bool
 	nviol       int
+	firstState  string
 }
 
 func TestMain(m *testing.M) {
@@ -156,6 +157,9 @@ func (r *Reporter) State(key string) bool {
 		return false
 	}
 	r.states[k] = struct{}{}
+	if r.firstState == "" {
+		r.firstState = key
+	}
 	return true
 }
 func (r *Reporter) Nontrivial(key string) {
@@ -197,6 +201,9 @@ func (r *Reporter) NotExhaustive(why string) {
 func (r *Reporter) Done() {
 	r.mu.Lock()
 	defer r.mu.Unlock()
+	if len(r.samples) == 0 && r.firstState != "" {
+		r.samples = append(r.samples, map[string]any{"case": r.firstState})
+	}
 	r.emit(map[string]any{"t": "stat", "states": len(r.states), "transitions": r.transitions, "evaluations": r.evals,
 		"distinct_nontrivial": len(r.nontrivial), "traces_validated_against_impl": r.traces,
 		"outcomes": r.outcomes, "samples": r.samples, "notes": r.notes, "assumptions": r.assume,
